@@ -122,7 +122,7 @@ def gen_case(rng, tier, idx):
 
 
 # --------------------------------------------------------------------------
-def child_main(path):
+def child_main(path, only=None):
     import logging
     import shutil
     import tempfile
@@ -151,6 +151,8 @@ def child_main(path):
     base = tempfile.mkdtemp(prefix="vpc10_")
     try:
         for n, c in enumerate(cases):
+            if only is not None and n != only:
+                continue
             cleaner = T.make_cleaner(c["cfg"])
             del order[:]
             res = {"n": n}
@@ -279,6 +281,35 @@ def run_shard(ctx):
     ctx.count("hash_seeds_swept", len(results))
     if not results:
         return
+    # ---- "in a fresh cleaner": also fresh with respect to what OTHER cleaners of the process did before.  A few cases are
+    # cleaned once more, each alone in a brand-new interpreter, and compared with what the sequence above gave for them
+    ref0 = results[sorted(results)[0]]
+    cand = [n for n, c in enumerate(cases) if n > 0 and c["cfg"].get("obfuscate") and c["cfg"].get("obfuscate_hostname") and c["lines"] and not c.get("width")]
+    alone = []
+    for n in ctx.rng.sample(cand, min(len(cand), 6 if ctx.tier == "quick" else 16)):
+        env = dict(os.environ)
+        env["PYTHONHASHSEED"] = str(sorted(results)[0])
+        alone.append((n, subprocess.Popen([sys.executable, "-m", "vpmon.props.c10", "--child-alone", path, str(n)], env=env,
+                                          stdout=subprocess.PIPE, stderr=subprocess.PIPE)))
+    for n, p_ in alone:
+        try:
+            o_, e_ = p_.communicate(timeout=300)
+            doc_ = json.loads(o_.decode())["results"]
+        except Exception:
+            p_.kill()
+            ctx.count("harness_errors")
+            ctx.sets.setdefault("harness_error_texts", set()).add("child cleaning one case alone failed")
+            continue
+        ctx.count("cases_cleaned_alone_in_a_new_interpreter")
+        if doc_ and doc_[0]["out"] != ref0[n]["out"]:
+            a_, b_ = doc_[0]["out"], ref0[n]["out"]
+            diff_ = None
+            if isinstance(a_, list) and isinstance(b_, list):
+                diff_ = [(x, y) for x, y in zip(a_, b_) if x != y][:2]
+            ctx.current = cases[n]
+            ctx.violation("output-depends-on-what-other-cleaners-of-the-process-did-before", {"alone_vs_in_sequence": diff_ or [str(a_)[:200], str(b_)[:200]],
+                                                                                                "fqdn": cases[n]["cfg"]["fqdn"]})
+            ctx.current = None
     ref_seed = sorted(results)[0]
     before = {}          # (a, b) -> witness that a was applied before b
     for n, c in enumerate(cases):
@@ -466,5 +497,7 @@ def run_case(spec, ctx):
 
 
 if __name__ == "__main__":
-    if len(sys.argv) > 2 and sys.argv[1] == "--child":
+    if len(sys.argv) > 3 and sys.argv[1] == "--child-alone":
+        child_main(sys.argv[2], only=int(sys.argv[3]))
+    elif len(sys.argv) > 2 and sys.argv[1] == "--child":
         child_main(sys.argv[2])
